@@ -265,3 +265,44 @@ Proof.
   destruct IH as (l & ->); [intros k Hk; apply H; now right|].
   specialize (H n (or_introl eq_refl)). destruct (fs_get fs n) as [t|]; [now eexists | congruence].
 Qed.
+
+(* ------------------------------------------------------------------------------------ *)
+(* record_finished, taken apart *)
+
+Definition with_disc (w : wstate) (b : nat) (deps : list bytes) : wstate :=
+  mkW (ws_fs w) (ws_cache w) ((b, deps) :: ws_disc w) (ws_hashes w) (ws_tbl w) (ws_log w).
+
+Lemma record_finished_inv w b bd reported w1 r : record_finished w b bd reported = Ok (w1, r) ->
+  exists deps wa mi wb mo,
+    keep_deps (wb_dirtying bd) (reported_names reported) [] = Ok deps /\
+    stat_all (with_disc w b deps) (wb_dirtying bd ++ deps) false = (wa, mi) /\
+    stat_all wa (wb_outs bd) false = (wb, mo) /\
+    ((mi || mo = true /\ w1 = wb /\ r = None) \/
+     (mi || mo = false /\ exists m bytes tbl,
+        manifest_of wb bd deps = Some m /\
+        write_build (ws_tbl wb) (wb_outs bd) deps (hash_build m) = Ok (bytes, tbl) /\
+        w1 = mkW (ws_fs wb) (ws_cache wb) (ws_disc wb) (ws_hashes wb) tbl (ws_log wb ++ bytes) /\
+        r = Some (hash_build m))).
+Proof.
+  unfold record_finished. fold (reported_names reported).
+  destruct (keep_deps (wb_dirtying bd) (reported_names reported) []) as [deps| | | |]; cbn [bind]; try discriminate.
+  fold (with_disc w b deps).
+  destruct (stat_all (with_disc w b deps) (wb_dirtying bd ++ deps) false) as [wa mi] eqn:Ea.
+  destruct (stat_all wa (wb_outs bd) false) as [wb mo] eqn:Eb.
+  intros E. exists deps, wa, mi, wb, mo. split; [reflexivity|]. split; [exact Ea|]. split; [exact Eb|].
+  destruct (mi || mo) eqn:Em.
+  - left. injection E as <- <-. now repeat split.
+  - right. split; [reflexivity|].
+    destruct (manifest_of wb bd deps) as [m|] eqn:Emf; [|discriminate].
+    destruct (write_build (ws_tbl wb) (wb_outs bd) deps (hash_build m)) as [[bytes tbl]| | | |] eqn:Ewb; cbn [bind] in E; try discriminate.
+    injection E as <- <-. exists m, bytes, tbl. now repeat split.
+Qed.
+
+Lemma disc_of_with_disc_same w b deps : disc_of (with_disc w b deps) b = deps.
+Proof. unfold disc_of, with_disc. cbn [ws_disc assoc_nat]. now rewrite Nat.eqb_refl. Qed.
+
+Lemma disc_of_with_disc_other w b deps b' : b' <> b -> disc_of (with_disc w b deps) b' = disc_of w b'.
+Proof.
+  intros Hne. unfold disc_of, with_disc. cbn [ws_disc assoc_nat].
+  destruct (b' =? b)%nat eqn:E; [apply Nat.eqb_eq in E; contradiction | reflexivity].
+Qed.
